@@ -1,4 +1,4 @@
-module verif/harness
+module gonum.org/v1/gonum/verifharness
 
 go 1.23.0
 
